@@ -12,6 +12,11 @@ package main
 // bytes): well-formed (fields padlong, padmid — it must be delivered) or with damaged padding bytes
 // far from / near the end (padbadfar, padbadfirst, padbadnear — it must not).
 //
+// For the GCM suite T is also a record sealed by the Lean side under the client's write key and write
+// IV, in B's place in the sequence, whose 8-byte explicit nonce is the SENDER'S OWN CHOICE instead of
+// a copy of epoch ‖ seq_num (fields noncectr, noncezero, nonceones, nonceoff, nonceswap): the
+// standard leaves the explicit part to the sender, so it must be delivered by every receive path.
+//
 // The standard's verdict (Lean oracle, keys re-derived from the capture): T does not authenticate
 // unless untouched, so it must not be delivered, and it must change nothing — C, B and D must
 // still arrive (dtlcp; on tlcp a forged record is fatal: nothing more is delivered and Read fails).
@@ -173,14 +178,14 @@ func runRXTLCP(cfg rxCfg) (o rxOut, err string) {
 		return o, "hold"
 	}
 	o.t = tamper(cfg.field, o.brec, arec, 5)
-	if strings.HasPrefix(cfg.field, "pad") {
+	if leanSealed(cfg.field) {
 		ch, sh := tlcpHandshakeMsgs(ce.SentBytes()), tlcpHandshakeMsgs(se.SentBytes())
 		if len(ch) == 0 || len(sh) == 0 || len(ch[0]) < 38 || len(sh[0]) < 38 {
 			return o, "hellos"
 		}
 		cmac, _, ckey, _, civ, _ := tlcp.VerifKeys(cfg.suite, cc.master, ch[0][6:38], sh[0][6:38])
 		seq := protectedCount(ce.SentBytes()) - 1 // B is the last one; T takes its place
-		o.t, o.padlen = sealPadded(cfg, "tlcp", ckey, civ, cmac, 0, uint64(seq))
+		o.t, o.padlen = sealForeign(cfg, "tlcp", ckey, civ, cmac, 0, uint64(seq))
 		if o.t == nil {
 			return o, "sealer"
 		}
@@ -248,7 +253,7 @@ func runRXDTLCP(cfg rxCfg) (o rxOut, err string) {
 		return o, "hold"
 	}
 	o.t = tamper(cfg.field, o.brec, arec, 13)
-	if strings.HasPrefix(cfg.field, "pad") {
+	if leanSealed(cfg.field) {
 		var cwire, swire []byte
 		for _, x := range ce.SentCopy() {
 			cwire = append(cwire, x...)
@@ -265,7 +270,7 @@ func runRXDTLCP(cfg rxCfg) (o rxOut, err string) {
 		for _, b := range o.brec[5:11] {
 			seq = seq<<8 | uint64(b)
 		}
-		o.t, o.padlen = sealPadded(cfg, "dtlcp", ckey, civ, cmac, int(o.brec[3])<<8|int(o.brec[4]), seq)
+		o.t, o.padlen = sealForeign(cfg, "dtlcp", ckey, civ, cmac, int(o.brec[3])<<8|int(o.brec[4]), seq)
 		if o.t == nil {
 			return o, "sealer"
 		}
@@ -417,6 +422,68 @@ func dtlcpLastMessage(wire []byte, typ byte) []byte {
 	return nil
 }
 
+// leanSealed: the record put in front of the receiver is sealed by the Lean side under the
+// client's write keys (fields pad…: CBC with long padding; nonce…: GCM with an explicit nonce of
+// the sender's own choosing), not a rewritten copy of a genuine record.
+func leanSealed(field string) bool {
+	return strings.HasPrefix(field, "pad") || strings.HasPrefix(field, "nonce")
+}
+
+func sealForeign(cfg rxCfg, stack string, key, iv, mac []byte, epoch int, seq uint64) ([]byte, int) {
+	if strings.HasPrefix(cfg.field, "nonce") {
+		return sealNonce(cfg, stack, key, iv, epoch, seq), 0
+	}
+	return sealPadded(cfg, stack, key, iv, mac, epoch, seq)
+}
+
+// sealNonce asks the Lean side for an SM4-GCM application-data record under the given write key and
+// write IV, for the given epoch / sequence number, whose 8-byte nonce_explicit is NOT a copy of
+// epoch ‖ seq_num. RFC 5288 section 3 (which GB/T 38636 follows for the GCM suites): the explicit
+// part is "chosen by the sender and carried in each record"; it "MAY be the 64-bit sequence
+// number". A receiver therefore takes it from the record, whatever it is.
+//
+//	noncectr   a counter of the sender's own with a random start value
+//	noncezero  all-zero        nonceones  all-ones
+//	nonceoff   the sequence number plus a small offset (a counter that started elsewhere)
+//	nonceswap  the sequence number, byte-reversed
+func sealNonce(cfg rxCfg, stack string, key, iv []byte, epoch int, seq uint64) []byte {
+	r := hx.NewRand(cfg.seed ^ 0x90ce)
+	x := append([]byte{'T'}, r.Bytes(8+r.Intn(40))...)
+	own := make([]byte, 8) // what gotlcp's own sender would write
+	v := seq
+	if stack == "dtlcp" {
+		v |= uint64(epoch) << 48
+	}
+	for i := 7; i >= 0; i-- {
+		own[i] = byte(v)
+		v >>= 8
+	}
+	e := make([]byte, 8)
+	switch cfg.field {
+	case "noncectr":
+		copy(e, r.Bytes(8))
+	case "noncezero":
+	case "nonceones":
+		for i := range e {
+			e[i] = 0xff
+		}
+	case "nonceoff":
+		copy(e, own)
+		e[7] += byte(1 + r.Intn(200))
+	case "nonceswap":
+		for i := range e {
+			e[i] = own[7-i]
+		}
+	default:
+		return nil
+	}
+	if string(e) == string(own) { // the one value these cases are not about
+		e[0] ^= 0x80
+	}
+	return leanSeal(fmt.Sprintf("stack=%s suite=%d key=%s iv=%s mac=- epoch=%d seq=%d typ=23 ver=257 nonce=%s payload=%s",
+		stack, cfg.suite, hx.Hex(key), hx.Hex(iv), epoch, seq, hx.Hex(e), hx.Hex(x)))
+}
+
 // sealPadded asks the Lean side for an application-data record (9 bytes starting with 'T') under
 // the given write keys and sequence number whose padding is the variant cfg.field names.
 func sealPadded(cfg rxCfg, stack string, key, iv, mac []byte, epoch int, seq uint64) (rec []byte, padlen int) {
@@ -474,6 +541,14 @@ func rxCases(o hx.Opts, emit func(string)) {
 				emit(rxDesc(rxCfg{stack: "dtlcp", suite: 0xe013, path: path, field: f, seed: r.U64() >> 1}))
 			}
 			emit(rxDesc(rxCfg{stack: "tlcp", suite: 0xe013, path: "read", field: f, seed: r.U64() >> 1}))
+		}
+		// GCM records sealed by the Lean side whose explicit nonce is the sender's own choice (not
+		// a copy of epoch ‖ seq_num), through every receive path of both stacks: they must be opened
+		for _, f := range []string{"noncectr", "noncezero", "nonceones", "nonceoff", "nonceswap"} {
+			for _, path := range []string{"read", "readfrom"} {
+				emit(rxDesc(rxCfg{stack: "dtlcp", suite: 0xe053, path: path, field: f, seed: r.U64() >> 1}))
+			}
+			emit(rxDesc(rxCfg{stack: "tlcp", suite: 0xe053, path: "read", field: f, seed: r.U64() >> 1}))
 		}
 	}
 }
